@@ -42,6 +42,16 @@ where
   {
     *self.on_finalize.write().unwrap() =
       Some(FunctionWrapper::new(move |_| f()));
+    // installed after the subscription has already ended (it was unsubscribed
+    // on another thread while the operator was still setting itself up):
+    // finalize will not run again, so the action runs now - once, whoever
+    // takes it out of the slot
+    if !self.subscriber.is_subscribed() {
+      let f = self.on_finalize.write().unwrap().take();
+      if let Some(f) = f {
+        f.call(());
+      }
+    }
   }
 
   pub fn new_observer<XItem, Next, Error, Complete>(
@@ -73,11 +83,19 @@ where
     );
     let o_unsub = observer.clone();
 
-    let mut unsubscribers = self.unscribers.write().unwrap();
-    unsubscribers.insert(
-      serial.clone(),
-      FunctionWrapper::new(move |_| o_unsub.unsubscribe()),
-    );
+    {
+      let mut unsubscribers = self.unscribers.write().unwrap();
+      unsubscribers.insert(
+        serial.clone(),
+        FunctionWrapper::new(move |_| o_unsub.unsubscribe()),
+      );
+    }
+    // registered after the subscription has already ended (an operator that
+    // subscribes a further source while another thread unsubscribes): nobody
+    // would ever tear this upstream down, so it starts out unsubscribed
+    if !self.subscriber.is_subscribed() {
+      self.upstream_abort_observe(&serial);
+    }
     observer
   }
 
@@ -143,10 +161,9 @@ where
     // also after a terminal: this drops the teardown action, which otherwise
     // keeps subscriber -> teardown -> controller -> subscriber alive forever
     self.subscriber.unsubscribe();
-    let on_finalize = &mut *self.on_finalize.write().unwrap();
+    let on_finalize = self.on_finalize.write().unwrap().take();
     if let Some(f) = on_finalize {
       f.call(());
-      *on_finalize = None;
     }
   }
 
